@@ -367,6 +367,26 @@ def compare_dir(component, driver, outdir, timeout=3600):
     if p.returncode != 0:
         res["error"] = "hydrv %s exited %d: %s" % (driver, p.returncode, p.stderr[-2000:])
         return res
+    # fast path (large streams): byte-identical outputs and no oracle line => nothing to report
+    try:
+        import filecmp
+        if (os.path.getsize(os.path.join(outdir, "oracle.txt")) == 0 and
+                filecmp.cmp(os.path.join(outdir, "impl.txt"), os.path.join(outdir, "model.txt"), shallow=False)):
+            n = 0
+            with open(os.path.join(outdir, "ops.txt"), "rb") as fh:
+                while True:
+                    b = fh.read(1 << 24)
+                    if not b:
+                        break
+                    n += b.count(b"\n")
+            res["cases"] = n
+            try:
+                res["stats"] = json.load(open(os.path.join(outdir, "stats.json")))
+            except Exception as e:  # noqa
+                res["stats"] = {"error": str(e)}
+            return res
+    except OSError:
+        pass
     ops = open(os.path.join(outdir, "ops.txt")).read().split("\n")
     mops = open(os.path.join(outdir, "mops.txt")).read().split("\n")
     impl = open(os.path.join(outdir, "impl.txt")).read().split("\n")
